@@ -176,4 +176,44 @@ theorem compat3 (a b c e L : Nat) (he : 1 ≤ e)
       first | omega | exact ⟨by omega, Or.inr trivial⟩ | exact Or.inl trivial)
 
 
+
+/-! ### delays -/
+
+theorem delayFuel_spec (f : Nat) : ∀ (k n d : Nat), 0 < d → n < 2 ^ (k + f) →
+    (k = 0 ∨ 2 ^ (2 * k - 1) * (d * d) ≤ n * n) →
+    n * n < 2 ^ (2 * delayFuel f k n d + 1) * (d * d) ∧
+    (delayFuel f k n d = 0 ∨ 2 ^ (2 * delayFuel f k n d - 1) * (d * d) ≤ n * n) := by
+  induction f with
+  | zero =>
+    intro k n d hd hn hp
+    simp only [delayFuel, Nat.add_zero] at hn ⊢
+    refine ⟨?_, hp⟩
+    have h1 : n * n < 2 ^ k * 2 ^ k := Nat.mul_lt_mul'' hn hn
+    have h2 : 2 ^ k * 2 ^ k = 2 ^ (2 * k) := by rw [← Nat.pow_add]; congr 1; omega
+    have h3 : 2 ^ (2 * k) ≤ 2 ^ (2 * k + 1) := Nat.pow_le_pow_right (by omega) (by omega)
+    have h4 : 2 ^ (2 * k + 1) ≤ 2 ^ (2 * k + 1) * (d * d) := Nat.le_mul_of_pos_right _ (Nat.mul_pos hd hd)
+    omega
+  | succ f ih =>
+    intro k n d hd hn hp
+    simp only [delayFuel]
+    split
+    · rename_i h
+      exact ⟨h, hp⟩
+    · rename_i h
+      apply ih (k + 1) n d hd (by rw [show k + 1 + f = k + (f + 1) by omega]; exact hn)
+      right
+      have : 2 * (k + 1) - 1 = 2 * k + 1 := by omega
+      rw [this]
+      omega
+
+/-- the delay is the level from which the axis is within a factor `√2` of the finest axis: with
+    `k = delay n d` and `q = n / d ≥ 1`, `q / 2^k ∈ [1/√2, √2)` (stated on squares) -/
+theorem delay_spec (n d : Nat) (hd : 0 < d) :
+    n * n < 2 ^ (2 * delay n d + 1) * (d * d) ∧
+    (delay n d = 0 ∨ 2 ^ (2 * delay n d - 1) * (d * d) ≤ n * n) := by
+  unfold delay
+  apply delayFuel_spec n 0 n d hd
+  · simp only [Nat.zero_add]; exact Nat.lt_two_pow_self
+  · left; rfl
+
 end NgVerif.Scales
